@@ -282,7 +282,7 @@ class Fn:
             alert = self.alert_of(st.body[0].exc)
             if left.endswith(".verify_data") and alert is not None:
                 src = self.mac_source(right, st)
-                return self.emit(st, cond, {"k": "verifyFinished", "alert": alert, "expected": src})
+                return self.emit(st, cond, {"k": "verifyFinished", "alert": alert, "expected": src, "left": left})
             if left == "binder" and right == "expected_binder" and alert is not None:
                 src = self.mac_source(right, st)
                 return self.emit(st, cond, {"k": "verifyBinder", "alert": alert, "expected": src})
@@ -732,7 +732,51 @@ def extract(path):
                     if isinstance(leaf, ast.Attribute) and dotted(leaf.value) == "self" and leaf.attr in writers \
                             and name not in writers[leaf.attr]:
                         writers[leaf.attr].append(name)
+    # data flow of the two authentication checks (RFC 8446 §4.4.3 / §4.4.4): what is verified with
+    # which key over which transcript value
+    flow = []
+    chk = methods["_check_certificate_verify_signature"]
+    vcalls = [x for x in ast.walk(chk) if isinstance(x, ast.Call) and dotted(x.func) == "public_key.verify"]
+    if len(vcalls) != 1:
+        raise ExtractError("_check_certificate_verify_signature: expected exactly one public_key.verify(..) call")
+    pk = [x.value for x in ast.walk(chk) if isinstance(x, ast.Assign) and dotted(x.targets[0]) == "public_key"]
+    if len(pk) != 1:
+        raise ExtractError("_check_certificate_verify_signature: public_key must be assigned exactly once")
+    pkv = pk[0]
+    if isinstance(pkv, ast.Call) and dotted(pkv.func) == "cast":
+        pkv = pkv.args[1]
+    flow.append(("sig.key", dotted(pkv)))
+    for i, nm in enumerate(("sig.signature", "sig.data", "sig.params")):
+        flow.append((nm, dotted(vcalls[0].args[i]) if i < len(vcalls[0].args) else ""))
+    for fn, steps in fns.items():
+        for st in steps:
+            if st["act"]["k"] == "verifyFinished":
+                flow.append((f"finished.{fn}.received", st["act"]["left"]))
+                flow.append((f"finished.{fn}.expected", st["act"]["expected"]))
+    ks = next(n for n in mod.body if isinstance(n, ast.ClassDef) and n.name == "KeySchedule")
+    for m in ks.body:
+        if isinstance(m, ast.FunctionDef) and m.name in ("certificate_verify_data", "finished_verify_data",
+                                                         "derive_secret", "update_hash"):
+            body = [x for x in m.body if not (isinstance(x, ast.Expr) and isinstance(x.value, ast.Constant))]
+            flow.append((f"KeySchedule.{m.name}", "; ".join(dotted(x).replace("\n", " ") for x in body)))
+    stp = methods["_setup_traffic_protection"]
+    flow.append(("_setup_traffic_protection", "; ".join(
+        dotted(x).replace("\n", " ") for x in stp.body if not (isinstance(x, ast.Expr) and isinstance(x.value, ast.Constant)))))
+    for slot in ("_enc_key", "_dec_key", "_expected_verify_data"):
+        ws = []
+        for name, m in methods.items():
+            for x in ast.walk(m):
+                if isinstance(x, (ast.Assign, ast.AnnAssign)):
+                    tg = x.targets if isinstance(x, ast.Assign) else [x.target]
+                    if any(dotted(t) == "self." + slot for t in tg) and x.value is not None:
+                        ws.append(f"{name}: {dotted(x.value)}")
+        flow.append((f"writers.{slot}", " | ".join(ws)))
+    for node in mod.body:
+        if isinstance(node, ast.Assign) and isinstance(node.targets[0], ast.Name) \
+                and node.targets[0].id in ("SERVER_CONTEXT_STRING", "CLIENT_CONTEXT_STRING"):
+            flow.append((node.targets[0].id, node.value.value.decode("ascii")))
     return {
+        "auth_flow": flow,
         "verify_cert_args": vc_args[0], "config_writers": [[a, writers[a]] for a in cfg],
         "source": os.path.relpath(path, os.path.dirname(os.path.dirname(os.path.dirname(path)))),
         "enums": enums, "alerts": alerts, "tables": tables, "defaults": defaults, "consts": consts,
